@@ -1,3 +1,3 @@
-(* _client.py :: _sync_get_key :: ('callarg', 'GetKey', 0, 1) :  root_key_id *)
+(* _client.py :: _sync_get_key :: shape kernel :  GetKey(... 1: root_key_id  [= root_key_id] ...) *)
 Definition k_onl_getkey_arg1 (root_key_id : list Z) : list Z :=
   root_key_id.
